@@ -414,6 +414,8 @@ type Raw struct {
 	notify chan struct{}
 	nextID uint32
 	NoRead bool
+	// MaxKeep > 0: payloads longer than this are remembered truncated
+	MaxKeep int
 }
 
 // DialRaw connects a raw client as node `node`.
@@ -448,6 +450,11 @@ func (r *Raw) reader() {
 			seq := zzsim.Seq()
 			r.mu.Lock()
 			for _, f := range frames {
+				if r.MaxKeep > 0 && len(f.Payload) > r.MaxKeep {
+					// (a peer that floods requests with huge answers: the
+					// harness remembers the head of each answer only)
+					f.Payload = f.Payload[:r.MaxKeep]
+				}
 				f.Payload = append([]byte(nil), f.Payload...)
 				r.frames = append(r.frames, RawFrame{seq, f})
 			}
@@ -458,6 +465,10 @@ func (r *Raw) reader() {
 			r.notify = make(chan struct{})
 			r.mu.Unlock()
 			done += consumed
+			if done > 1<<20 {
+				acc = append([]byte(nil), acc[done:]...)
+				done = 0
+			}
 		}
 		if err != nil {
 			r.mu.Lock()
